@@ -294,6 +294,19 @@ def rt_real(seed, n):
         out.append(dict(name='rt:RMAX:never-above-rmax/(1-gamma)', ok=ok_ub, witness=w))
         out.append(dict(name='rt:RMAX:tried>=m:empirical-Bellman-equation-within-the-configured-tolerance', ok=worst < tol, witness=dict(w, residual=worst)))
         out.append(dict(name='rt:RMAX:experience-is-real', ok=all(ns in T[(s, a)] and T[(s, a)][ns] > 0 and r == R.get((s, a, ns), 0.) and s != Sn - 1 for (s, a, ns, r) in exp), witness=w))
+        # a learner OBJECT that has already been trained on a model of ANOTHER size must behave like a fresh one (nothing of the first model may survive in it)
+        n2 = Sn + 2
+        aux = QuickTabularMDP(next_state_dist=lambda s, a: DictDistribution({min(s + 1, n2 - 1): .75, s: .25}) if a == 'u' else DictDistribution({max(s - 1, 0): 1.}),
+                              reward=lambda s, a, ns: (rmax if (ns == n2 - 1 and s != n2 - 1) else (0. if rmax > 0 else -1.)) if s != n2 - 1 else 0., actions=acts,
+                              initial_state_dist=DictDistribution({0: 1.}), is_absorbing=lambda s: s == n2 - 1, discount_rate=g)
+        if float(np.max(aux.reward_matrix)) == rmax:
+            mk = lambda: rm.RMAX(episodes=2, rmax=rmax, num_transition_samples=m, bellman_convergence_diff=tol, seed=k)
+            fresh = mk().train_on(mdp)
+            reused = mk()
+            reused.train_on(aux)
+            r2 = reused.train_on(mdp)
+            same = all(abs(r2.q_values[s][a] - fresh.q_values[s][a]) < 1e-12 for s in sl for a in al) and set(r2.q_values) == set(fresh.q_values)
+            out.append(dict(name='rt:RMAX:a-learner-object-reused-after-a-model-of-another-size-equals-a-fresh-one', ok=bool(same), witness=dict(w, first_model_states=n2)))
     return out
 
 
